@@ -35,6 +35,7 @@ var c03Timings = []world.SubPlan{
 	{Early: true, After: true, Same: true},
 	{Early: true, After: true},
 	{Early: true, Before: true},
+	{Inst: true},
 }
 
 func (p c03) Run(c *core.Ctx) {
